@@ -99,9 +99,9 @@ def version_verdict(version):
         int(version)
     except ValueError:
         return False, 'version not a number'
-    # '+1', ' 1', '1_0': Python would read a number, the standard wants digits; the
-    # statement only gives the range.  Interpretation: undecided.
-    return None, 'silent:version-spelling'
+    # '+1', ' 1', '1_0': Python's int() would read a number, but a version number is a string of digits (ECMA-119 7.5.1,
+    # and what the library's own check demands): not a version in 1-32767.
+    return False, 'version not digits'
 
 
 def _all_d(b):
